@@ -28,7 +28,7 @@ void harness(void) {
 	res = m_scn_pki(M_F_VERIFYSIG_PUBLIC); if (res == KSI_INVALID_PKI_SIGNATURE) REACH("bad signature"); if (res == KSI_PKI_CERTIFICATE_NOT_TRUSTED) REACH("certificate not trusted");
 #endif
 #ifdef H_chain
-	res = m_scn_pki(M_F_CHAIN); if (res == KSI_PKI_CERTIFICATE_NOT_TRUSTED) REACH("certificate not trusted");
+	res = m_scn_pki(M_F_CHAIN); if (res == KSI_PKI_CERTIFICATE_NOT_TRUSTED) REACH("certificate not trusted"); if (res == KSI_OUT_OF_MEMORY && !m_env_failed) REACH("allocation failure (C19)");
 #endif
 #ifdef H_raw
 	res = m_scn_raw(); if (res == KSI_INVALID_PKI_SIGNATURE) REACH("bad signature");
